@@ -28,6 +28,7 @@ type jobPanic struct{ id int }
 
 type c09Env struct {
 	rec  *recorder
+	inv  *worker.DefaultInvokable[*c09Job]
 	pool *worker.DefaultWorkerPool
 	max  int
 	mu   sync.Mutex
@@ -99,12 +100,27 @@ func (e *c09Env) schedule(j *c09Job, how int) string {
 	switch how {
 	case 1:
 		err = e.pool.ScheduleWithTimeout(e.fn(j), 2*time.Millisecond)
+	case 2: // through an Invokable: the callee receives the job
+		err = e.invokable().InvokeWithTimeout(j, 2*time.Millisecond)
+	case 3: // Invoke reports nothing
+		e.invokable().Invoke(j)
+		e.rec.ev(E{"ev": "sched", "id": j.id, "r": "unknown"})
+		return "unknown"
 	default:
 		err = e.pool.Schedule(e.fn(j))
 	}
 	r := schedRes(err)
 	e.rec.ev(E{"ev": "sched", "id": j.id, "r": r})
 	return r
+}
+
+func (e *c09Env) invokable() *worker.DefaultInvokable[*c09Job] {
+	e.mu.Lock()
+	defer e.mu.Unlock()
+	if e.inv == nil {
+		e.inv = worker.NewDefaultInvokable[*c09Job](nil, nil).SetWorkerPool(e.pool).SetCallee(func(j *c09Job) { e.fn(j)() })
+	}
+	return e.inv
 }
 
 // wait (bounded) until every accepted job has started
@@ -314,6 +330,16 @@ func c09Stress(w *ndWriter, rng *rand.Rand, wait time.Duration) {
 	}
 	C, B := 1+rng.Intn(4), rng.Intn(5)
 	e := newC09(max, standby, batch, C, B)
+	switch rng.Intn(5) {
+	case 0: // a second pool built from the first one's settings in one call, its job queue set before any use
+		q2 := fpgo.NewBufferedChannelQueue[func()](C, B, 4).SetLoadFromPoolDuration(50 * time.Microsecond)
+		tmpl := e.pool
+		e.pool = worker.NewDefaultWorkerPool(fpgo.NewBufferedChannelQueue[func()](1, 1, 1), nil).
+			SetDefaultWorkerPoolSettings(tmpl.DefaultWorkerPoolSettings).SetJobQueue(q2)
+		tmpl.Close()
+	case 1: // workers allocated up front (never more than the maximum)
+		e.pool.PreAllocWorkerSize(1 + rng.Intn(2*max)) // also beyond the maximum: the bound must hold all the same
+	}
 	subs := 1 + rng.Intn(3)
 	per := 2 + rng.Intn(8)
 	acc := map[int]bool{}
@@ -328,7 +354,7 @@ func c09Stress(w *ndWriter, rng *rand.Rand, wait time.Duration) {
 			for i := 1; i <= per; i++ {
 				id := (s+1)*100 + i
 				kind := []string{"ok", "ok", "ok", "slow", "panic"}[r.Intn(5)]
-				if e.schedule(mkJob(id, kind), r.Intn(3)/2) == "ok" {
+				if e.schedule(mkJob(id, kind), []int{0, 0, 1, 2, 3}[r.Intn(5)]) == "ok" {
 					amu.Lock()
 					acc[id] = true
 					amu.Unlock()
